@@ -59,9 +59,96 @@ def abstract_vec(d, env, notes):
             c, s = cyc(u[2], u[1])   # (alpha a + beta b) x a = beta (b x a)
             return ('axis', c, s * v[2])
         return None
+    # Gram-Schmidt step  v - u (u.v): orthogonal to u only when u is a UNIT vector, i.e. u is itself a normalised term
+    m = match('(call Matrix::sub $v (call Matrix::mul $u (call Matrix::dot $u2 $v2)))', d)
+    if m and m['u'] == m['u2'] and m['v'] == m['v2'] and _is_unit(m['u']):
+        n2 = []
+        u, v = abstract_vec(m['u'], env, n2), abstract_vec(m['v'], env, n2)
+        if u and v and u[0] == 'axis' and v[0] == 'hint' and u[1] == v[1]:
+            return ('axis', v[2], 1)     # (alpha a + beta b) - a alpha = beta b, beta > 0
+        return None
     if d[0] == 'param' and d[2] in env:
         return env[d[2]]
     return None
+
+
+def _is_unit(d):
+    return any(match(p, d) is not None for p in ('(unwrap (call Option::ok_or (call Matrix::try_normalize _ _) _))', '(call Matrix::normalize _)',
+                                                   '(call Unit::new_normalize _)', '(unwrap (call Matrix::try_normalize _ _))'))
+
+
+def _counts_strictly_greater(cx, b):
+    """SvdBasis::rank idioms: (1) `for s in sv { if *s > tol { rank += 1 } } rank`, (2) sv.iter().filter(|s| **s > tol).count()"""
+    from vpa import guards as G
+    r = cx.retval(b)
+    e = match('(call *::count (call Iterator::filter (field sv (param self)) (closure * _)))', r)
+    if e is not None:
+        cls = cx.facts.closures_of(b.name)
+        ok = len(cls) == 1 and (match('(lt (field cap:tol (param 1)) (param 2))', cx.retval(cls[0])) is not None or match('(lt (param tol) (param 2))', cx.retval(cls[0])) is not None)
+        return ok, show(cx.retval(cls[0])) if cls else 'no closure'
+    e = match('(phi 0 (loop $m))', r) or match('(phi (loop $m) 0)', r)
+    if e is None or len(b.loops()) != 1:
+        return False, show(r)
+    h, blocks, backs = b.loops()[0]
+    mk = r[2] if r[2][0] == 'loop' else r[1]
+    c = int(str(mk[1]).split('@')[0].lstrip('_'))
+    defs = [d for d in b.defs().get(c, []) if d[0] in blocks]
+    if len(defs) != 1 or defs[0][2] != 'assign':
+        return False, f'{len(defs)} definitions of the counter inside the loop'
+    bi, si, _, st = defs[0]
+    val = simplify(b.dag().rvalue(st['rv'], bi, si))
+    if match('(add 1 (phi 0 (loop _)))', val) is None and match('(add 1 (loop _))', val) is None:
+        return False, 'increment is ' + show(val)
+    preds = [p for p in b.pred[bi]] if hasattr(b, 'pred') else [x for x in blocks if bi in b.succ[x]]
+    if len(preds) != 1:
+        return False, 'the increment block has several predecessors'
+    S = preds[0]
+    tgt = bi
+    while b.blocks[S]['term']['k'] != 'switch':      # overflow-check assert blocks between the test and the store
+        pp = [x for x in blocks if S in b.succ[x]]
+        if len(pp) != 1:
+            return False, 'the increment block has several predecessors'
+        tgt, S = S, pp[0]
+    lits = G.edge_literals(b, S).get(tgt, [])
+    if not any(pol and match('(lt (param tol) (itervar (field sv (param self))))', a) is not None for a, pol in lits):
+        return False, 'increment guarded by ' + '; '.join(('' if p else 'NOT ') + show(a) for a, p in lits)
+    # the test is the first thing done with every element: its block is the Some-successor of the next() switch
+    sp = [x for x in blocks if S in b.succ[x]]
+    if len(sp) != 1:
+        return False, 'the comparison is not reached once per element'
+    sl = G.edge_literals(b, sp[0]).get(S, [])
+    if not any(pol and match('(is (call *::next _) Some)', a) is not None for a, pol in sl):
+        return False, 'the comparison is not the first step of every iteration'
+    return True, None
+
+
+EXACT = ('(call Unit::from_rotation_matrix (call Rotation::from_matrix_unchecked (call Matrix::from_columns $cols)))',
+         '(call Unit::from_rotation_matrix (call Rotation::from_basis_unchecked $cols))',
+         '(call Unit::from_basis_unchecked $cols)')
+ITERATIVE = ('(call Unit::from_matrix (call Matrix::from_columns $cols))', '(call Unit::from_matrix_eps (call Matrix::from_columns $cols) ...)')
+
+
+def _cols(cx, b, e, key, cols_pat):
+    """the orthonormal column matrix must be turned into a rotation by an exact (closed form) conversion: nalgebra's
+    from_matrix is an iteration started at the identity, and an exact half turn is a stationary point of it"""
+    if e is None:
+        return None
+    rot = e['rot']
+    ex = [m for m in (match(p, rot) for p in EXACT) if m is not None]
+    it = [m for m in (match(p, rot) for p in ITERATIVE) if m is not None]
+    cx.ob('EXPR', f'{key}:exact-rotation', bool(ex),
+          f'{key}: the rotation is read off the orthonormal columns in closed form (from_rotation_matrix / from_basis_unchecked); the iterative from_matrix '
+          'started at the identity does not move for a frame that is an exact half turn away (e.g. primary axis -x, secondary +y) and returns the identity',
+          where=b.file, found=rot if not ex else None)
+    m = (ex or it or [None])[0]
+    if m is None:
+        return None
+    e2 = match(cols_pat, m['cols'])
+    if e2 is None:
+        return None
+    out = dict(e)
+    out.update(e2)
+    return out
 
 
 def run(cx):
@@ -107,29 +194,31 @@ def run(cx):
     cx.floor('AXIS', 'try_from_basis', n, 6, 'two-vector frame constructors')
     b = cx.fn('geom3::iso3::from_bases')
     if b:
-        cx.expect('AXIS', 'from_bases', cx.retval(b),
+        e = cx.expect('AXIS', 'from_bases', cx.retval(b),
                   '(agg *Result::Ok (0 (call Isometry::from_parts (phi (call Translation::from (field coords (unwrap (param origin)))) (call Translation::identity)) '
-                  '(call Unit::from_matrix (call Matrix::from_columns (agg array (0 (param e0)) (1 (param e1)) (2 (param e2))))))))',
-                  'from_bases: columns in x,y,z order; origin becomes the translation, None the identity', where=b.file)
+                  '$rot)))',
+                  'from_bases: origin becomes the translation, None the identity', where=b.file)
+        e = _cols(cx, b, e, 'from_bases', '(agg array (0 (param e0)) (1 (param e1)) (2 (param e2)))')
+        cx.ob('AXIS', 'from_bases:columns', e is not None, 'from_bases: columns in x,y,z order', where=b.file)
     b = cx.fn('common::svd_basis::iso3_from_basis')
     if b:
         r = cx.retval(b)
-        e = match('(call *Isometry::inverse (call Isometry::from_parts (call Translation::from (field coords (param origin))) (call Unit::from_matrix (call Matrix::from_columns '
-                  '(agg array (0 $b0) (1 $b1) (2 (call Matrix::normalize (call Matrix::cross $b0 $b1))))))))', r)
+        e = match('(call *Isometry::inverse (call Isometry::from_parts (call Translation::from (field coords (param origin))) $rot))', r)
+        e = _cols(cx, b, e, 'iso3_from_basis', '(agg array (0 $b0) (1 $b1) (2 (call Matrix::normalize (call Matrix::cross $b0 $b1))))')
         ok = e is not None and match('(call Matrix::normalize (index (param basis) 0))', e['b0']) is not None and match('(call Matrix::normalize (index (param basis) 1))', e['b1']) is not None
         cx.ob('AXIS', 'iso3_from_basis', ok, 'iso3_from_basis: third column is b0 x b1 (right-handed), columns in order, inverse of the frame at origin', where=b.file, found=r)
     b = cx.fn('common::svd_basis::iso3_from_xyo')
     if b:
         r = cx.retval(b)
-        e = match('(call *Isometry::inverse (call Isometry::from_parts (call Translation::from (field coords (param origin))) (call Unit::from_matrix (call Matrix::from_columns '
-                  '(agg array (0 (param x0)) (1 $y0) (2 (call Matrix::normalize (call Matrix::cross (param x0) $y0))))))))', r)
+        e = match('(call *Isometry::inverse (call Isometry::from_parts (call Translation::from (field coords (param origin))) $rot))', r)
+        e = _cols(cx, b, e, 'iso3_from_xyo', '(agg array (0 (param x0)) (1 $y0) (2 (call Matrix::normalize (call Matrix::cross (param x0) $y0))))')
         oky = e is not None and match('(call Unit::new_normalize (call Matrix::sub (param y) (call Matrix::mul (param x0) (call Matrix::dot (param x0) (param y)))))', e['y0']) is not None
         cx.ob('AXIS', 'iso3_from_xyo', oky, 'iso3_from_xyo: y0 = normalize(y - x0 (x0.y)) (Gram-Schmidt), z0 = x0 x y0', where=b.file, found=r)
     b = cx.fn('common::svd_basis::iso2_from_basis')
     if b:
         r = cx.retval(b)
-        e = match('(call *Isometry::inverse (call Isometry::from_parts (call Translation::from (field coords (param origin))) (call Unit::from_matrix (call Matrix::from_columns '
-                  '(agg array (0 $b0) (1 (call Rotation::mul (call Rotation::new FRAC_PI_2) $b0)))))))', r)
+        e = match('(call *Isometry::inverse (call Isometry::from_parts (call Translation::from (field coords (param origin))) $rot))', r)
+        e = _cols(cx, b, e, 'iso2_from_basis', '(agg array (0 $b0) (1 (call Rotation::mul (call Rotation::new FRAC_PI_2) $b0)))')
         cx.ob('AXIS', 'iso2_from_basis', e is not None and match('(call Matrix::normalize (index (param basis) 0))', e['b0']) is not None,
               'iso2_from_basis: second column is the first rotated by +pi/2 (proper rotation)', where=b.file, found=r)
 
@@ -193,6 +282,12 @@ def run(cx):
               'basis[i][j] = v_t[(i, j)]: rows of V^T become the basis vectors', where=b.file, found=str({k: (show(v[0])[:80], show(v[1])[:120]) for k, v in vals.items()}))
         cx.ob('EXPR', 'svd_from_vectors:scales', es is not None and ts is not None and es['i'] == ts['i'] and eb is not None and es['i'] == eb['i'],
               'sv[i] = singular_values[i] with the same i as basis[i]', where=b.file)
+    b = cx.fn('common::svd_basis::SvdBasis::rank')
+    if b:
+        okr, why = _counts_strictly_greater(cx, b)
+        cx.ob('GUARD', 'SvdBasis::rank', okr,
+              'rank(tol) = the number of stored singular values STRICTLY greater than tol (every value is visited, one count per value): a value equal to the tolerance, in particular 0 at tol 0 for coincident points, does not count',
+              where=b.file, found=why)
     b = cx.fn('common::svd_basis::SvdBasis::point_to_basis')
     if b:
         st = [m for m in b.mutations() if m.kind == 'store' and m.elem]
